@@ -343,6 +343,9 @@ def run(tier, seed, ev):
         results = [r for r in ex.map(one, range(V.NCPU)) if r[2] > 0]
     results += policy_pass(rng, sc, tier, ev)
     viols, good = TR.validate_all("Trace_Extract", "Trace_Extract", results, ev, "C06", xmx="4g")
+    # members from MacLHA archives: envelope recognition, what is handed out, verdict (MacBinary.tla)
+    import maccommon
+    viols += maccommon.run("C06", tier, seed, ev)
     # the print command: banner + exactly the selected members' contents (Cli.tla)
     import clicommon as CL
     viols += CL.run("C06", tier, seed, ev, 12 if tier == "quick" else 200, modes=("p",))
